@@ -48,7 +48,7 @@ class C19(PropBase):
         hists = []
         for h in range(nh):
             addrs = rng.sample(range(1, 1 << 24), 3)
-            lines = [gen.rand_frame(rng, rng.choice(gen.FORMATS), rng.choice(addrs)) for _ in range(rng.randrange(30, 200))]
+            lines = [gen.rand_frame(rng, rng.choice(gen.FORMATS + gen.FORMATS_OTHER), rng.choice(addrs)) for _ in range(rng.randrange(30, 200))]
             lines += [valid_frame(rng, rng.choice(addrs)) for _ in range(40)]
             rng.shuffle(lines)
             hists.append(lines)
